@@ -61,6 +61,11 @@ def _written_vars(f, _depth: int = 0) -> Set[str]:
     for n in walk_local(f.node):
         if isinstance(n, ast.For) and isinstance(n.target, ast.Name) and n.target.id in out and isinstance(n.iter, ast.Call) and isinstance(n.iter.func, ast.Attribute) and isinstance(n.iter.func.value, ast.Name):
             out.add(n.iter.func.value.id)
+    from .common import chunk_source
+    for nm in list(out):
+        cs = chunk_source(f.node, nm)
+        if cs is not None:
+            out.add(cs[0])
     return out
 
 
